@@ -24,7 +24,10 @@ def _hdr(fam, typ, rl=5, **kw):
 def _role(v, hdr):
     if v == hdr:
         return "HEADER"
-    if isinstance(v, int) and not isinstance(v, bool) and v == hdr.fields["remaining_len"]:
+    rl = hdr.fields["remaining_len"]
+    if isinstance(v, int) and not isinstance(v, bool) and not isinstance(rl, Lin) and v == rl:
+        return "REMAINING_LEN"
+    if isinstance(v, Lin) and isinstance(rl, Lin) and (v.a, v.b) == (1, 0):
         return "REMAINING_LEN"
     if isinstance(v, Sym) and v.tag in ("READER", "reader"):
         return "READER"
@@ -33,9 +36,10 @@ def _role(v, hdr):
 
 class DispatchProbe:
     """Evaluate one of the three dispatch functions for one packet type and record what it does."""
-    def __init__(self, F, fam, typ, rl):
+    def __init__(self, F, fam, typ, rl, log=None):
         self.F, self.fam, self.typ, self.rl = F, fam, typ, rl
-        self.hdr = _hdr(fam, typ, rl)
+        # the remaining length is an unknown with a witness: every constant a dispatch function compares it with is logged
+        self.hdr = _hdr(fam, typ, rl if log is None else Lin(1, 0, rl, log))
         self.events = []
 
     def hook(self, d, res, args, node, env):
@@ -100,14 +104,23 @@ def h_dispatch3(F, R):
         for typ in variants:
             n += 1
             res = {}
-            for rl in (0, 5):
-                p = DispatchProbe(F, fam, typ, rl)
+            todo, rls, log = [0, 5], [], []
+            while todo and len(rls) < 16:
+                rl = todo.pop(0)
+                if rl in rls or rl < 0:
+                    continue
+                rls.append(rl)
+                p = DispatchProbe(F, fam, typ, rl, log)
                 res[("empty", rl)] = p.run(e_fid, [p.hdr])
-                p = DispatchProbe(F, fam, typ, rl)
+                p = DispatchProbe(F, fam, typ, rl, log)
                 res[("async", rl)] = p.run(a_fid, [Sym("READER")])
-                p = DispatchProbe(F, fam, typ, rl)
+                p = DispatchProbe(F, fam, typ, rl, log)
                 res[("block", rl)] = p.run(b_fid, [p.hdr, Sym("READER")])
-            for rl in (0, 5):
+                for _op, k in log:
+                    if isinstance(k, int):
+                        todo += [x for x in (k - 1, k, k + 1) if x not in rls and x not in todo]
+                del log[:]
+            for rl in rls:
                 e, a, b = res[("empty", rl)], res[("async", rl)], res[("block", rl)]
                 key = "%s/%s/rl%d" % (fam, typ, rl)
                 if e[0] == "none":
@@ -126,12 +139,12 @@ def h_dispatch3(F, R):
                 else:
                     R.fail("H-dispatch3", key, "build_empty_packet for %s evaluates to %s" % (typ, e), where=e_fid)
             # G-dispatch: block_decode may panic only if build_empty_packet returns a packet for every remaining length
-            for rl in (0, 5):
+            for rl in rls:
                 if res[("block", rl)][0] == "panic":
-                    always = all(res[("empty", r2)][0] != "none" for r2 in (0, 5))
+                    always = all(res[("empty", r2)][0] != "none" for r2 in rls)
                     R.check(always, "G-dispatch", "%s/%s" % (fam, typ),
                             "%s block_decode panics (unreachable!) for %s, but build_empty_packet returns None for it when the remaining length is %s: "
-                            "a frame of that type with a body reaches the panic" % (fam, typ, [r2 for r2 in (0, 5) if res[("empty", r2)][0] == "none"]), where=b_fid)
+                            "a frame of that type with a body reaches the panic" % (fam, typ, [r2 for r2 in rls if res[("empty", r2)][0] == "none"]), where=b_fid)
         # PollHeader::remaining_len is the header's field
         rl_fid = F.impl_method("PollHeader", hdr_ty, "remaining_len")
         v = PE(F).call_fn(rl_fid, [_hdr(fam, "Publish", 77)])
@@ -259,8 +272,10 @@ def h_utf8_values(F, R):
 def h_payfmt_values(F, R):
     """v5 will and PUBLISH payloads flagged as UTF-8 are validated (simdutf8) on the buffer that becomes the
     payload: flag Some(true) + invalid -> InvalidPayloadFormat; every other combination is accepted."""
+    abstract_lost = []
     for fid, kind in (("v5::connect::LastWill::decode_async", "will"), ("v5::publish::Publish::decode_async", "publish")):
-        for flag, valid in itertools.product((some(True), some(False), NONE), (True, False)):
+        shapes = [(q, x) for q in ("Level0", "Level1", "Level2") for x in (False, True)]
+        for (qos, bit), flag, valid in itertools.product(shapes, (some(True), some(False), NONE), (True, False)):
             checked = []
 
             def hook(d, res, args, node, env, flag=flag, valid=valid):
@@ -299,15 +314,20 @@ def h_payfmt_values(F, R):
                 if what[0] == "try-ok":
                     return True
                 return None
-            hdr = _hdr("v5", "Publish", 50)
-            args = [Sym("READER"), Adt("common::types::QoS", "Level0"), False] if kind == "will" else [Sym("READER"), hdr]
+            hdr = _hdr("v5", "Publish", 50, qos=qos, dup=bit and qos != "Level0", retain=bit)
+            args = [Sym("READER"), Adt("common::types::QoS", qos), bit] if kind == "will" else [Sym("READER"), hdr]
             try:
                 r = PE(F, call_hook=hook, cond_hook=cond).call_fn(fid, args)
             except Undecided as e:
-                raise AnchorLost("%s cannot be evaluated: %s" % (fid, e))
+                # the check may look at the bytes themselves (a fast path for short or ASCII payloads): the evaluation on
+                # concrete payloads below decides it; without that one, the anchor is lost
+                abstract_lost.append("%s cannot be evaluated on an abstract payload: %s" % (fid, e))
+                continue
             k = result_kind(r)
             must_reject = (flag == some(True)) and not valid
             key = "%s/flag-%s/%s" % (kind, flag.variant if flag is NONE else repr(flag.fields["0"]), "valid" if valid else "invalid")
+            if (qos, bit) != ("Level0", False):
+                key += "/%s%s" % (qos, "+bits" if bit else "")
             if must_reject:
                 good = k[0] == "err" and isinstance(k[1], Adt) and k[1].variant == "InvalidPayloadFormat" and Sym("PAYLOAD") in checked
                 R.check(good, "H-payfmt", key, "%s: payload flagged UTF-8 but invalid gives %r; validated buffers: %s" % (fid, r, [repr(c) for c in checked]), where=fid)
@@ -317,6 +337,132 @@ def h_payfmt_values(F, R):
                 if flag == some(True):
                     good = good and Sym("PAYLOAD") in checked
                 R.check(good, "H-payfmt", key, "%s: flag %r, %s payload gives %r" % (fid, flag, "valid" if valid else "invalid", r), where=fid)
+
+
+    # -- the same two decoders on concrete payloads: whatever the check looks at (the validator, a byte scan for short or ASCII
+    #    payloads, a length test), flag Some(true) refuses exactly the byte strings that are not UTF-8 and the payload kept is the
+    #    byte string read
+    nconc = 0
+    for fid, kind in (("v5::connect::LastWill::decode_async", "will"), ("v5::publish::Publish::decode_async", "publish")):
+        for flag, fname in ((some(True), "True"), (some(False), "False"), (NONE, "None")):
+            bad = []
+            sizes = set()
+            for qos in (("Level0", "Level1", "cuts") if flag == some(True) else ("Level0",)):
+                if qos == "cuts":
+                    # the check cuts the payload into pieces: a two-, three- and four-byte character across every kind of cut,
+                    # and an invalid byte in the second piece
+                    todo = []
+                    for n in sorted(sizes)[:4]:
+                        e2, e3, e4 = "\u00e9".encode(), "\u20ac".encode(), "\U0001F600".encode()
+                        todo += [b"a" * (n - 1) + e2, b"a" * (n - 1) + e3 + b"a", b"a" * (n - 2) + e4, b"a" * (n - 3) + e4 + b"a" * n,
+                                 b"a" * (2 * n - 1) + e2, b"a" * n + b"\x80", b"a" * (n - 1) + b"\xc3", b"a" * (n - 1) + b"\xc3" + b"a"]
+                    pls, qos = [list(b) for b in todo], "Level0"
+                else:
+                    pls = _payloads(full=(flag == some(True) and qos == "Level0"))
+                for pl in pls:
+                    try:
+                        r, valid = _payfmt_concrete(F, fid, kind, flag, qos, pl, sizes)
+                    except Undecided as e:
+                        raise AnchorLost("%s cannot be evaluated on the payload %r: %s%s" % (fid, bytes(pl), e, ("; " + abstract_lost[0]) if abstract_lost else ""))
+                    nconc += 1
+                    k = result_kind(r)
+                    if flag == some(True) and not valid:
+                        good = k[0] == "err" and isinstance(k[1], Adt) and k[1].variant == "InvalidPayloadFormat"
+                    else:
+                        v = k[1] if k[0] == "ok" else None
+                        got = v.fields.get("payload") if isinstance(v, Adt) else None
+                        good = isinstance(got, Tup) and list(got.items) == list(pl)
+                    if not good:
+                        bad.append((qos, bytes(pl), repr(r)[:80]))
+            R.check(not bad, "H-payfmt", "%s/bytes/flag-%s" % (kind, fname),
+                    "%s with payload format flag %s: %d concrete payload(s) are not handled as `refuse iff flagged UTF-8 and not UTF-8, else keep the bytes`, e.g. %s" % (
+                        fid, fname, len(bad), bad[0] if bad else ""), where=fid)
+    R.floor("H-payfmt", "concrete payload evaluations", nconc, 600)
+
+
+def _payloads(full):
+    """Byte strings around every boundary of UTF-8: valid one- to four-byte characters, lone continuation and lead bytes, overlong
+    forms, surrogates, values above U+10FFFF, truncated sequences, the offending byte first / last / after 31, 32, 33 harmless
+    bytes; with `full`, additionally every single byte value."""
+    out = [b"", b"a", b"\x00", b"\x7f", "\u00e9".encode(), "\u20ac".encode(), "\U0001F600".encode(), b"a" * 33, "\u00e9".encode() * 17,
+           b"a" * 31 + "\u00e9".encode(), b"\x80", b"\xbf", b"\xc0\x80", b"\xc1\xbf", b"\xc2", b"\xe2\x82", b"\xed\xa0\x80", b"\xed\x9f\xbf",
+           b"\xf4\x90\x80\x80", b"\xf4\x8f\xbf\xbf", b"\xf8\x88\x80\x80\x80", b"\xff", b"\xfe", b"a\x80", b"\x80a", b"\xc3\x28", b"\xe2\x28\xa1",
+           b"\xf0\x28\x8c\xbc", b"\xf0\x90\x80", b"\xe0\x80\x80", b"\xf0\x80\x80\x80", "\u00e9".encode() + b"\x80", b"\xef\xbf\xbe", b"\xef\xbb\xbf"]
+    for n in (7, 8, 15, 16, 31, 32, 33, 63, 64, 65):
+        out += [b"a" * n + b"\x80", b"a" * n + b"\xff", b"\x80" + b"a" * n, b"a" * n + "\u00e9".encode(), b"a" * n + b"\xc3"]
+    if full:
+        out += [bytes([b]) for b in range(256)]
+        out += [bytes([0x61, b]) for b in range(0x78, 0x100, 3)]
+    seen, res = set(), []
+    for b in out:
+        if b not in seen:
+            seen.add(b)
+            res.append(list(b))
+    return res
+
+
+_SLICERS = {"chunks", "chunks_exact", "rchunks", "rchunks_exact", "windows", "split_at", "split_at_checked", "split_at_unchecked", "take", "skip",
+            "step_by", "array_chunks", "as_chunks", "split_first_chunk", "first_chunk"}
+
+
+def _payfmt_concrete(F, fid, kind, flag, qos, payload, sizes=None):
+    try:
+        bytes(payload).decode("utf-8")
+        valid = True
+    except UnicodeDecodeError:
+        valid = False
+
+    def hook(d, res, args, node, env):
+        r = res or d
+        name = node["fn"].get("name")
+        if sizes is not None and name in _SLICERS and len(args) == 2 and isinstance(args[1], int) and not isinstance(args[1], bool) and 2 <= args[1] <= 70000:
+            sizes.add(args[1])            # the payload is cut into pieces of this size: characters across a cut are tried below
+            return None
+        if r.endswith("Properties::decode_async"):
+            return ok(Adt(r.rsplit("::", 1)[0], "P", {"payload_is_utf8": flag}))
+        if r == "common::utils::read_bytes":
+            return ok(Tup(list(payload)))
+        if r in ("common::utils::read_string",):
+            return ok(Sym("TOPIC"))
+        if r == "common::utils::read_u16":
+            return ok(Sym("U16"))
+        if r.endswith("::try_from") and len(args) == 1 and isinstance(args[0], Sym):
+            return ok(Sym(("validated", repr(args[0]))))
+        if name == "encode_len":
+            return 1
+        if d == "alloc::vec::from_elem" and len(args) == 2 and isinstance(args[1], int):
+            return Tup([args[0]] * args[1])
+        if name in ("new", "default") and not args and ("vec::Vec" in d or "Bytes" in d):
+            return Tup([])
+        if name == "read_exact" and len(args) == 2 and isinstance(args[1], Tup):
+            if len(args[1].items) != len(payload):
+                raise Undecided("the payload buffer has %d bytes, the frame leaves %d" % (len(args[1].items), len(payload)))
+            args[1].items[:] = list(payload)
+            return ok(UNIT)
+        if "simdutf8" in r and name == "from_utf8":
+            if not (isinstance(args[0], Tup) and all(isinstance(x, int) for x in args[0].items)):
+                raise Undecided("from_utf8 on %r" % (args[0],))
+            try:
+                bytes(args[0].items).decode("utf-8")
+                return ok(Sym("S"))
+            except UnicodeDecodeError:
+                return err(Sym("E"))
+        if name in ("from", "into", "deref", "as_ref", "as_slice", "new", "deref_mut", "as_mut") and len(args) == 1:
+            return args[0]
+        if name == "len" and len(args) == 1 and isinstance(args[0], Sym):
+            return 3
+        if name == "is_empty" and len(args) == 1 and isinstance(args[0], Sym):
+            return False
+        return None
+
+    def cond(what, node):
+        if what[0] == "try-ok":
+            return True
+        return None
+    rl = 2 + 3 + (0 if qos == "Level0" else 2) + 1 + len(payload)
+    hdr = _hdr("v5", "Publish", rl, qos=qos)
+    args = [Sym("READER"), Adt("common::types::QoS", qos), False] if kind == "will" else [Sym("READER"), hdr]
+    return PE(F, call_hook=hook, cond_hook=cond, fuel=20000).call_fn(fid, args), valid
 
 
 # ---- packet-level encode tables -----------------------------------------------------------------------------------------
